@@ -2,17 +2,19 @@
 from ..core import Script, Rng
 from ..stage import LineStage, replay_line
 from .common import *
-from . import c01, c02, c03, c09
+from . import c01, c02, c03, c09, c10
 
-ARTEFACTS = ["G1-consts", "G2-rs-portable", "G3-arith", "G4-listings", "G9-update", "G22-dispatch", "G25-oneshot", "G8-chunkstate"]
-EXTRA_PROPS = [("B3.Props.C01T", "B3/Props/C01T.lean"), ("B3.Props.C04T", "B3/Props/C04T.lean"), ("B3.Props.C01O", "B3/Props/C01O.lean"), ("B3.Props.C02T", "B3/Props/C02T.lean")]   # theorems about the code translated from the sources
+ARTEFACTS = ["G1-consts", "G2-rs-portable", "G3-arith", "G4-listings", "G9-update", "G22-dispatch", "G25-oneshot", "G8-chunkstate", "G35-build-rs", "G36-cfg-gates"]
+EXTRA_PROPS = [("B3.Props.C01T", "B3/Props/C01T.lean"), ("B3.Props.C04T", "B3/Props/C04T.lean"), ("B3.Props.C01O", "B3/Props/C01O.lean"), ("B3.Props.C02T", "B3/Props/C02T.lean"), ("B3.Props.C04B", "B3/Props/C04B.lean")]   # theorems about the code translated from the sources
 RULE = ("every script of the C01/C02/C03/C09 generators is replicated at each forced platform {portable, sse2, sse41, avx2, avx512} "
         "(hook: thread-local override in Platform::detect) and compared with the ONE Lean model (whose SIMD degree is a parameter) and "
         "the spec, which makes all levels equal to each other; the same scripts run against a `pure` build (Rust intrinsics, no "
         "assembly) in the quick tier (plus the deterministic ones against prefer_intrinsics = C intrinsics) and additionally prefer_intrinsics, no_avx512, no_avx2, no_sse41, no_sse2 builds in the thorough "
-        "tier (stock feature flags cross-check the hook); non-trivial = script with >= 2 chunks of input; distinct = distinct script")
+        "tier (stock feature flags cross-check the hook); feature sets: harness/rs enables std+rayon+mmap+zeroize+serde+traits-preview, "
+        "harness/rs_min builds the crate with default-features = false and nothing else and runs the same scripts (minus the platform "
+        "hook); histories include re-use after reset and clone_from; non-trivial = script with >= 2 chunks of input; distinct = distinct script")
 ASSUMPTIONS = ["NEON and wasm cannot run on this machine; they are outside the property's list",
-               "no-default-features / optional features only add or remove API surface: exercised by building the harness with them, not by a separate model"]
+               "feature sets between 'none' and 'all optional features' are not built separately (each optional feature only adds cfg-gated items; G4 lists them)"]
 NOT_PROVED = []
 
 
@@ -34,6 +36,10 @@ def base_scripts(rng, k):
         out.append(c02.history(rng, "portable", rng.randrange(2, 14), 80 * 1024))
         out.append(c03.history(rng, "portable", rng.randrange(2, 12)))
         out.append(c09.decomp_script(rng, "portable", 100 * 1024))
+        if i % 2 == 0:
+            # re-use after reset / clone: the optional features (zeroize, traits) add code exactly on these paths
+            out.append(c10.reset_script(rng, "portable"))
+            out.append(cross_mode_clone_script(rng, "portable"))
     out += c03.boundary_grid(rng, "portable", 18)
     out += [sc for sc in c01.context_sequence_scripts(rng) if "portable" in sc.tags]
     return out
@@ -50,6 +56,17 @@ def stages(tier, seed, witness_search=False):
         # the C intrinsics build (third kernel family) on the deterministic part: one-shot lengths and the xof boundary grids
         det = [sc for sc in scripts if "oneshot" in sc.tags or "boundary-grid" in sc.tags or "context-sequence" in sc.tags]
         st.append(LineStage("prefer_intrinsics-build", det, features=("prefer_intrinsics",), normalize=norm_all))
+    # the other end of the feature-set quantifier: the crate with default-features = false and no optional feature (harness/rs_min;
+    # no platform hook there, so the `P plat` lines are dropped and the detected level is used), default and pure flavours
+    seen, nodef = set(), []
+    for sc in scripts:
+        ops = [o for o in sc.ops if not o.startswith("P plat ")]
+        if ops and "\n".join(ops) not in seen:
+            seen.add("\n".join(ops))
+            nodef.append(Script(ops, tags=sc.tags, nontrivial=sc.nontrivial))
+    st.append(LineStage("no-default-features-build", nodef, impl="rs_min", normalize=norm_all))
+    if tier == "thorough":
+        st.append(LineStage("no-default-features-pure-build", nodef, impl="rs_min", features=("pure",), normalize=norm_all))
     # the optional mmap / rayon features only change how the bytes reach the hasher: the file entry points against plain update
     from . import c11
     st.append(c11.FileStage(seed + 13, fifo=False))
@@ -64,6 +81,8 @@ def replay(d, lean_exe):
         return dict(still_fails=False, note="file scripts use scratch paths; re-run the check with the same VERIF_SEED")
     feats = ()
     st = d.get("stage", "")
+    if st.startswith("no-default-features"):
+        return replay_line(d, lean_exe, impl="rs_min", features=("pure",) if "pure" in st else (), normalize=norm_all)
     if st.endswith("-build") and st != "default-build":
         feats = (st[:-6],)
     return replay_line(d, lean_exe, features=feats, normalize=norm_all)
